@@ -701,6 +701,11 @@ func (fv *FV) callByContract(st *State, fc *FuncContract, pc *PkgContracts, osig
 		env.names["self"] = *recv
 	}
 	for i := 0; i < osig.Params().Len() && i < len(args); i++ {
+		if _, isArr := osig.Params().At(i).Type().Underlying().(*types.Array); isArr && len(fc.Modifies) > 0 {
+			// the callee gets a copy of an array argument; the engine passes the array itself, which is the same
+			// thing only when the callee writes nothing
+			fv.fail(pos, "unsupported: array passed by value to %s, whose contract has a modifies clause", name)
+		}
 		if n := osig.Params().At(i).Name(); n != "" && n != "_" {
 			env.names[n] = args[i]
 		}
@@ -1201,7 +1206,7 @@ func (fv *FV) lockOp(st *State, op string, recvExpr ast.Expr, c *ast.CallExpr) {
 		fv.fail(c.Pos(), "mutex operation on %s", fv.src(recvExpr))
 	}
 	owner := fv.evalExpr(st, se.X)
-	fv.compSort["L:held"] = arr(sInt, sBool)
+	fv.heldDecl()
 	held := fv.heapGet(st, "L:held")
 	fv.assumptions["sync.Mutex: Lock/Unlock are modelled by the ghost flag held[object]; mutual exclusion and the happens-before edges of the Go memory model are assumed"] = true
 	if op == "Lock" {
@@ -1240,7 +1245,7 @@ func (fv *FV) guardCheck(st *State, base Term, field string, what string, pos to
 	}
 	for _, g := range pc.Guards[named.Obj().Name()] {
 		if g == field {
-			fv.compSort["L:held"] = arr(sInt, sBool)
+			fv.heldDecl()
 			fv.oblige(st, "lock.guard["+what+"]", sel(fv.heapGet(st, "L:held"), base.S), "field "+field+" is accessed only while the mutex is held: "+what, nil, pos)
 		}
 	}
@@ -1266,4 +1271,17 @@ func (fv *FV) havocObject(st *State, ref string, t types.Type) {
 		fv.heapSetNoFrame(st, key, sto(fv.heapGet(st, key), ref, v.S))
 		fv.assumeWF(st, v)
 	}
+}
+
+// heldDecl declares the ghost flag held[object] of the mutex model and states that an object that does not exist when
+// the function is entered is not held then (a mutex is created unlocked).
+func (fv *FV) heldDecl() {
+	fv.compSort["L:held"] = arr(sInt, sBool)
+	if fv.declared["ax:held-fresh"] {
+		return
+	}
+	fv.declared["ax:held-fresh"] = true
+	held0 := fv.heapGet(fv.entry, "L:held")
+	alloc0 := fv.allocTerm(fv.entry)
+	fv.axioms = append(fv.axioms, fmt.Sprintf("(forall ((r Int)) (! (=> (not (select %s r)) (not (select %s r))) :pattern ((select %s r))))", alloc0, held0, held0))
 }
